@@ -532,10 +532,9 @@ class RouteController:
             next_hop.route_count -= 1
 
             if next_hop.route_count == 0:
-                route_module = get_route_module_name(route_entry.interface)
                 update_module_name = get_update_module_name(
-                    route_module_name=route_module,
-                    mac_address=next_hop.mac_address,
+                    route_entry.interface,
+                    next_hop.mac_address,
                 )
 
                 try:
